@@ -342,6 +342,9 @@ func c18ExecPlan(t *testing.T, scn c18Scenario) (res mc.Result, seen, hit []stri
 			case "cluster", "ping", "info", "command", "hgetall", "hget", "exists", "zrangebyscore", "select", "asking":
 				continue
 			}
+			if redisd.NonData(n) {
+				continue
+			}
 			if len(r.Argv) > 1 && isBisyncKey(r.Argv[1]) {
 				continue
 			}
